@@ -24,7 +24,7 @@ func mk(id, rule string, p Profile, quick, thorough int, mon func(fw.Case, []str
 		// `att=N` (southbound attempts) is an observation of the real run for the monitors only
 		Match: func(line, realOut, twinOut string) bool { return attRe.ReplaceAllString(realOut, "") == twinOut },
 		Sigs: map[string]func(fw.Case, []string, string) bool{"dirtyValueHistory": dirtySig,
-			"textualPrefix": textualPrefixSig, "recreateUnderDeleted": recreateSig, "rollbackOfSubtreeDelete": rollbackSig},
+			"textualPrefix": textualPrefixSig, "recreateUnderDeleted": recreateSig, "rollbackOfSubtreeDelete": rollbackSig, "refusalWriteLost": refusalWriteLostSig},
 	}
 }
 
